@@ -66,6 +66,7 @@ def handle (line : String) : String :=
     | some k, some ops => dash (String.ofList ((run (initSt k) ops).2.map resChar))
     | _, _ => "bad-op"
   | "P" :: "seq" :: k :: ops :: "##" :: obs :: [] =>
+    if obs.contains 'B' then "violated:never_blocks(a call did not return within the watchdog bound)" else
     match kindOf k, opsOf ops, (if obs = "-" then some [] else obs.toList.mapM resOf) with
     | some k, some ops, some obs => monitor k ops obs
     | _, _, _ => "bad-op"
@@ -76,6 +77,7 @@ def handle (line : String) : String :=
       else if Lin.linearizable step (initSt k) evs.toArray then "lin" else "notlin"
     | _, _ => "bad-op"
   | "P" :: "hist" :: k :: rest =>   -- the property for a concurrent history *is* linearizability (+ no panic)
+    if rest.any (fun t => t.endsWith ":B") then "violated:never_blocks(a call did not return within the watchdog bound)" else
     match kindOf k, (rest.takeWhile (· != "##")).mapM parseEv with
     | some k, some evs =>
       if evs.any (fun e => e.res == .panic) then "violated:never_panics"
